@@ -8,6 +8,7 @@ package cond
 //   {"kind":"seq"...}  class codes for all token sequences below a prefix (+ predicted selections
 //                      of the well-formed ones)
 //   {"kind":"tree"...} surface token lists of one syntax tree in every style (+ predicted selection)
+//   {"kind":"text"...} one literal text with class and predicted selection (replays, controls)
 // and prepares every text Reps times (the sanitiser iterates over a Go map).  It reports facts;
 // checks/c10.py classifies them.
 //
@@ -83,7 +84,7 @@ type Outcome struct {
 }
 
 func prepareN(text string, reps int) Outcome {
-	var o Outcome
+	o := Outcome{Canons: []string{}}
 	seen := map[string]bool{}
 	for i := 0; i < reps; i++ {
 		p := PrepareOnce(text)
@@ -186,6 +187,9 @@ type synInfo struct {
 
 type synLine struct {
 	Kind  string          `json:"kind"`
+	Text  string          `json:"text"`
+	Class int             `json:"class"`
+	Reps  int             `json:"reps"`
 	Pre   []int           `json:"pre"`
 	Codes []int           `json:"codes"`
 	WF    []wfCase        `json:"wf"`
@@ -384,6 +388,14 @@ func SynReplay(repsSeq, repsTree, nvariants, workers int, in io.Reader, out io.W
 			}
 			ntext += len(jobs)
 			emit(jobs, runJobs(jobs, info.Flows, repsTree, workers), repsTree)
+		case "text": // a single literal text (replay files, negative controls)
+			reps := l.Reps
+			if reps <= 0 {
+				reps = repsTree
+			}
+			jobs = append(jobs, job{text: l.Text, class: l.Class, exp: l.Exp, meta: map[string]any{"part": "text"}})
+			ntext++
+			emit(jobs, runJobs(jobs, info.Flows, reps, 1), reps)
 		default:
 			return fmt.Errorf("unknown line kind %q", l.Kind)
 		}
